@@ -4,7 +4,7 @@ import ast
 from .common import *
 from ..frontend import AnchorMissing
 from ..pointscan import Scan
-from ..poly import Poly, all_atoms
+from ..poly import Poly, all_atoms, deep_subs
 
 REL = "cyecca/symbolic.py"
 
@@ -145,6 +145,13 @@ def check_singularities(w, rep, tier):
         if atoms:
             sites["_list"].append((atoms, s))
     w.it.op_hook = hook
+    uses = []
+
+    def shook(node, module, fn, arg):
+        sf = w.fe.module_file(module) if module else None
+        chain = list(w.it.stack)
+        uses.append((chain[-1][0] if chain else "<module>", sf.rel if sf else (module or "?"), getattr(node, "lineno", 0), fn.key, fn.squared, arg))
+    w.it.series_hook = shook
     try:
         so3 = w.G("so3")
         for nm in GROUPS12:
@@ -205,11 +212,68 @@ def check_singularities(w, rep, tier):
             scan_value(w, rep, "C06.identity", "SE23LieGroup.calculate_N at v = 0", val, zero, sites, w.method_where(G, "calculate_N")[:2])
     finally:
         w.it.op_hook = None
+        w.it.series_hook = None
     rep.floor("C06.identity", 60)
+    check_series_consumers(w, rep, uses, "C06.consumers")
+    rep.floor("C06.consumers", 20)
+
+
+def _even_power_polynomial(p):
+    """p is a non-constant polynomial in symbols whose every monomial has even exponents only (a 'squared' quantity)."""
+    if not p.t or p.const_value() is not None:
+        return False
+    for mono in p.t:
+        for a, e in mono:
+            if a.kind != "sym" or e % 2 or e < 0:
+                return False
+    return True
+
+
+def check_series_consumers(w, rep, uses, rule):
+    """Every call site of a series-table entry met while building exp / log / Ad / Jacobians / conversions / calculate_N:
+    (parity)  an entry of the SQUARED table is evaluated as f(sqrt(u)): its formula must be even in x, otherwise the sign
+              of the angle is lost (f(sqrt(theta^2)) = f(|theta|)) and the derivative at 0 has a kink;
+    (kind)    the plain table must not be given a squared quantity (a polynomial with even powers only, e.g. w.w dt^2)
+              and the squared table must not be given a norm (a square root): the coefficient would be evaluated at theta^2
+              where theta is meant, or conversely."""
+    from ..seriesform import formula, X as FX
+    seen = set()
+    xa = FX.single_atom()
+    for fn, rel, line, key, squared, arg in uses:
+        k = (fn, key, squared)
+        if k in seen:
+            continue
+        seen.add(k)
+        table = "SQUARED_SERIES" if squared else "SERIES"
+        inst = "%s uses %s[%r]" % (fn, table, key)
+        f = w.stable.formula.get(key)
+        if f is None:                   # unreadable formula: C06.table's business
+            rep.na(rule, inst, "formula of the entry not readable")
+            continue
+        a = arg.s() if isinstance(arg, MatVal) else arg
+        if squared:
+            fneg = deep_subs(f, lambda b: -Poly.atom(xa) if b is xa else None)
+            v = decide(f, fneg)
+            if v == DIFFERENT:
+                rep.fail(rule, inst + ": the entry is even in x", "the formula %s is not even in x but the squared table evaluates it at sqrt(u): the sign of the angle is lost (|theta| instead of theta) "
+                         "and the value has a kink at 0" % key, where=(rel, line))
+                continue
+            sa = a.signed_atom() if hasattr(a, "signed_atom") else None
+            if sa is not None and sa[1].kind in ("sqrt", "fabs"):
+                rep.fail(rule, inst + ": argument is a squared quantity", "the squared table is given a norm (%s): the coefficient is evaluated at sqrt(theta) where theta is meant" % short(a, 60), where=(rel, line))
+                continue
+            rep.ok(rule, inst + ": even formula, argument not a norm")
+        else:
+            if _even_power_polynomial(a):
+                rep.fail(rule, inst + ": argument is an angle, not a squared quantity", "the plain table is given %s, a sum of even powers (a squared norm): the coefficient is evaluated at theta^2 where theta is meant "
+                         "(the two tables share their keys)" % short(a, 60), where=(rel, line))
+                continue
+            rep.ok(rule, inst + ": argument is not a squared quantity")
 
 
 def run(w, rep, tier):
     rep.rule("C06.table", "every series-table entry is taylor_series_near_zero(u, f) with the default order 6 and threshold 1e-3; the switch is if_else(fabs(x) < eps, series(f), f) of the same f; squared table substitutes sqrt(u)")
+    rep.rule("C06.consumers", "each call site of a series-table entry: squared-table entries are even functions of x and are not given a norm; plain-table entries are not given a squared quantity")
     rep.rule("C06.identity", "constant propagation of the identity element / zero vector through exp, log, Ad, Jacobians and conversions: no selected sqrt(0), acos/asin(+-1), division by 0 or atan2(0,0) (each makes the value or its automatic derivative non-finite there)")
     check_table(w, rep)
     check_singularities(w, rep, tier)
